@@ -161,7 +161,16 @@ def text_cell(Fn, Xi, Phi, i, o, efn, exi, ephi):
     dmin = d.min()
     if any(near(e, dmin, e) for e in d):
         return -1, "near-neighbour"
-    k = cand[int(np.flatnonzero(d == dmin)[0])]  # closest in frequency; first one when several are equally close
+    # closest in frequency; when several poles of the previous order are EXACTLY equally close the property leaves the choice open:
+    # the cell is judged only if every such neighbour gives the same verdict
+    tied = [int(cand[j]) for j in np.flatnonzero(d == dmin)]
+    verdicts = [_text_verdict(Fn, Xi, Phi, f, x, p, k, o, efn, exi, ephi) for k in tied]
+    if len({v[0] for v in verdicts}) > 1:
+        return -1, "tied-neighbours-disagree"
+    return verdicts[0]
+
+
+def _text_verdict(Fn, Xi, Phi, f, x, p, k, o, efn, exi, ephi):
     f1, x1, p1 = Fn[k, o - 1], Xi[k, o - 1], Phi[k, o - 1, :]
     tests = []  # (decided?, passes)
     for a, a1, err in ((f, f1, efn), (x, x1, exi)):
@@ -482,6 +491,10 @@ def judge(ctx, site, Lab, model, Fn, Xi, Phi, in_range, tols, case, dyadic, text
             v = mver[i][o]
             ctx.hist("model-verdict", {"T": "stable", "F": "not-stable", "n": "near (not judged)", "e": "exact tie"}[v])
             if v == "n" or (v == "e" and not dyadic):
+                near_cells += 1
+                continue
+            if exp[i, o] < 0 and why.get((i, o)) == "tied-neighbours-disagree":
+                # the model pins the first of several exactly equally close neighbours (what the present code does); the property does not
                 near_cells += 1
                 continue
             e = 1 if v == "T" else 0
@@ -1174,7 +1187,10 @@ def run(ctx):
             if Lab is None:
                 ctx.fail("oracle", "gen.SC_apply raised %s on corpus table %s (input forms: %s)" % (err, name, forms), case, key="C10:SC_apply:raised-%s" % err)
                 continue
-            if c.get("expected") is not None and not np.array_equal(Lab, np.array(c["expected"])):
+            free = np.zeros(np.shape(Lab), dtype=bool)
+            for (fi, fo) in c.get("free_cells") or []:   # exact ties of the nearest neighbour: the choice is the implementation's
+                free[int(fi), int(fo)] = True
+            if c.get("expected") is not None and (np.shape(Lab) != np.shape(c["expected"]) or not np.array_equal(np.asarray(Lab)[~free], np.array(c["expected"])[~free])):
                 ctx.fail("oracle", "gen.SC_apply on corpus table %s: labels %s, expected %s" % (name, Lab.tolist(), c["expected"]), case,
                          key="C10:SC_apply:corpus-%s" % name)
             exprs.append("run_sc_step %s %s %s %d%%nat %d%%nat %d%%nat %s %s %s"
